@@ -4,6 +4,7 @@ import json
 import math
 import os
 import sys
+import time
 from fractions import Fraction as Fr
 
 from .. import core
@@ -492,8 +493,7 @@ def oracle_renumbering(base, bout, var, vout):
                 return len(x) == len(y) and all(same(p, q) for p, q in zip(x, y))
             return close(y, x)
         ok = True
-        if nm in ("vnormals", "face_normals") and not planar_faces:
-            continue   # the normal of a skew quad is taken from its first three vertices: not a rotation-invariant notion
+        skew = nm in ("vnormals", "face_normals") and not planar_faces
         if nm in ("degree", "defects", "vnormals", "f2v", "c2v"):   # vertex-indexed
             ok = all(same(b[u], v[sigma[u]]) for u in range(len(sigma)))
         elif nm in ("face_area", "face_normals", "face_bary", "v2f", "c2f") and "order" in ren:   # face-indexed
@@ -509,7 +509,8 @@ def oracle_renumbering(base, bout, var, vout):
             be = {tuple(sorted((sigma[a], sigma[c]))): x for (a, c), x in zip(bout["edges"], b)}
             ok = all(tuple(sorted(e)) in be and same(be[tuple(sorted(e))], x) for e, x in zip(vout["edges"], v))
         if not ok:
-            bad.append((k, "%s%s: renumbering vertices / rotating and reordering faces does not permute the result accordingly" % (nm, _opts(call))))
+            bad.append((k, "%s%s%s: renumbering vertices / rotating and reordering faces does not permute the result accordingly"
+                        % (nm, _opts(call), " [skew quad rotated]" if skew else "")))
     return bad
 
 
@@ -599,7 +600,14 @@ def run_driver(cases, timeout=600):
     return outs
 
 
+KEY_SKEW = "attr/face_normals/skew-quad-rotation"
+WITNESS_SKEW = {"V": [[0.0, 0.0, 0.0], [1.0, 0.0, 0.0], [1.0, 1.0, 1.0], [0.0, 1.0, 0.0]], "C": None,
+                "script": [["face_normals", False, True]]}
+
+
 def classify(call, msg):
+    if "[skew quad rotated]" in msg:
+        return KEY_SKEW
     nm = call[0] if call else "build"
     if nm in ("v2f", "f2v", "sv2c", "sf2c", "c2v", "c2f"):
         return "interp/%s/%s/%s" % (nm, call[1], "preloaded" if call[5] else "fresh")
@@ -609,7 +617,7 @@ def classify(call, msg):
 
 
 # ====================================================================== shrinking
-def shrink_case(case, k, fails_many):
+def shrink_case(case, k, fails_many, deadline):
     """reduce to the failing call (keeping the prefix only if the failure needs it), then delete faces greedily.
     fails_many(list of candidate cases) -> list of bool (one implementation run per round)"""
     cur = dict(case)
@@ -620,10 +628,17 @@ def shrink_case(case, k, fails_many):
         cur = dict(cur, script=cur["script"][:k + 1])
     interp = any(c[0] in ("v2f", "f2v", "sv2c", "sf2c", "c2v", "c2f") for c in cur["script"])
     if cur.get("F") and not cur.get("C") and not interp:
-        for _round in range(60):
+        for _round in range(8):
+            if time.time() > deadline:
+                break
+            nf = len(cur["F"])
+            drops = [[fi] for fi in range(nf)]
+            for size in (nf // 2, nf // 4, nf // 8):
+                if size >= 2:
+                    drops += [list(range(a, min(nf, a + size))) for a in range(0, nf, size)]
             cands = []
-            for fi in range(len(cur["F"])):
-                F2 = cur["F"][:fi] + cur["F"][fi + 1:]
+            for dr in drops:
+                F2 = [f for fi, f in enumerate(cur["F"]) if fi not in dr]
                 if not F2:
                     continue
                 used = sorted({v for f in F2 for v in f})
@@ -637,7 +652,7 @@ def shrink_case(case, k, fails_many):
             hit = [c for c, r in zip(cands, res) if r]
             if not hit:
                 break
-            cur = hit[0]
+            cur = min(hit, key=lambda c: len(c["F"]))
     return cur
 
 
@@ -726,8 +741,24 @@ def run(ctx):
     else:
         ctx.obligation("correspondence batches", "correspondence", False, "model does not compile")
 
+    # 0. recorded finding: replay its witness on the implementation (KNOWN-FINDING while it still fails)
+    try:
+        wa = dict(WITNESS_SKEW, F=[[0, 1, 2, 3]])
+        wb = dict(WITNESS_SKEW, F=[[1, 2, 3, 0]])
+        oa, ob = run_driver([wa, wb], timeout=120)
+        na, nb = oa["out"][0].get("ok"), ob["out"][0].get("ok")
+        if na and nb and not closev(na[0], nb[0]):
+            ctx.violation("face_normals of the skew quad changes when its vertex list is rotated: %s vs %s" % (na[0], nb[0]),
+                          {"case": wa, "rotated": wb, "observed": [na, nb]}, key=KEY_SKEW)
+        else:
+            ctx.notes.append("recorded finding %s no longer reproduces (normals %s / %s)" % (KEY_SKEW, na, nb))
+            ctx.log("recorded finding %s no longer reproduces" % KEY_SKEW)
+    except Exception as ex:  # noqa
+        ctx.log("witness replay failed: %r" % ex)
+
     # 3. verdicts
     reported = set()
+    shrink_deadline = time.time() + (40 if quick else 300)
     for i, k, msg in fails[:400]:
         case = cases[i]
         call = case["script"][k] if k >= 0 else None
@@ -743,10 +774,10 @@ def run(ctx):
             os_ = run_driver(cands, timeout=300)
             return [any(cand["script"][kk][0] == call0[0] for kk, mm in oracle_case(cand, o_) if kk >= 0) for cand, o_ in zip(cands, os_)]
         small = strip(case)
-        if call is not None:
+        if call is not None and time.time() < shrink_deadline:
             try:
                 if fm([strip(case)])[0]:
-                    small = shrink_case(strip(case), k, fm)
+                    small = shrink_case(strip(case), k, fm, min(shrink_deadline, time.time() + (15 if quick else 60)))
             except Exception as ex:  # noqa
                 ctx.log("shrinking failed: %r" % ex)
         o = run_driver([small], timeout=120)[0]
